@@ -26,7 +26,19 @@ func cmdRerun(args []string) {
 	sc.Buffer(make([]byte, 1<<20), 1<<28)
 	tr := NewTrace(*out)
 	recs := map[int]*Rec{}
+	type item struct {
+		Op    string `json:"op"`
+		K     int    `json:"k"`
+		A     int    `json:"a"`
+		B     int    `json:"b"`
+		N     int    `json:"n"`
+		P     int    `json:"p"`
+		Seq   string `json:"seq"`
+		Stops []int  `json:"stops"`
+	}
 	type line struct {
+		Items []item            `json:"items"`
+		Ops   []json.RawMessage `json:"ops"`
 		Op   string `json:"op"`
 		T    int    `json:"t"`
 		Name string `json:"name"`
@@ -76,6 +88,38 @@ func cmdRerun(args []string) {
 		if rec == nil {
 			fatal("line for undeclared tree %d", e.T)
 		}
+		read := func(it item) {
+			switch it.Op {
+			case "Search":
+				rec.Search(it.K)
+			case "Min", "Max":
+				rec.MinMax(it.Op)
+			case "All", "Backward":
+				rec.Seq(it.Op, 0, 0, 0)
+			case "TopK", "BottomK":
+				rec.Seq(it.Op, 0, 0, it.N)
+			case "Range":
+				rec.Seq("Range", it.A, it.B, 0)
+			case "Prefix":
+				rec.Seq("Prefix", it.P, 0, 0)
+			case "Dump":
+				rec.DumpLine()
+			case "Iter":
+				stops := make([]int, len(it.Stops))
+				for i, s := range it.Stops {
+					if s >= 1<<20 {
+						stops[i] = -1
+					} else {
+						stops[i] = s
+					}
+				}
+				a := it.A
+				if it.Seq == "Prefix" {
+					a = it.P
+				}
+				rec.IterCheck(it.Seq, a, it.B, it.N, stops)
+			}
+		}
 		switch e.Op {
 		case "clear":
 			rec.Clear()
@@ -86,38 +130,27 @@ func cmdRerun(args []string) {
 		case "Delete":
 			rec.DumpAll = e.Hasd
 			rec.Delete(e.K)
-		case "Search":
-			rec.Search(e.K)
-		case "Min", "Max":
-			rec.MinMax(e.Op)
-		case "All", "Backward":
-			rec.Seq(e.Op, 0, 0, 0)
-		case "TopK", "BottomK":
-			rec.Seq(e.Op, 0, 0, e.N)
-		case "Range":
-			rec.Seq("Range", e.A, e.B, 0)
-		case "Prefix":
-			rec.Seq("Prefix", e.P, 0, 0)
-		case "Dump":
-			rec.DumpLine()
-		case "Iter":
-			stops := make([]int, len(e.Stops))
-			for i, s := range e.Stops {
-				if s >= 1<<20 {
-					stops[i] = -1
-				} else {
-					stops[i] = s
-				}
+		case "Pre":
+			var ops []opT
+			for _, r := range e.Ops {
+				var tri []json.RawMessage
+				json.Unmarshal(r, &tri)
+				var o opT
+				json.Unmarshal(tri[0], &o.Op)
+				json.Unmarshal(tri[1], &o.K)
+				ops = append(ops, o)
 			}
-			a := e.A
-			if e.Seq == "Prefix" {
-				a = e.P
+			rec.Pre(ops)
+		case "Batch":
+			rec.BeginBatch()
+			for _, it := range e.Items {
+				read(it)
 			}
-			rec.IterCheck(e.Seq, a, e.B, e.N, stops)
+			rec.EndBatch()
 		case "GC":
 			envGC(tr)
 		default:
-			// environment lines that cannot be re-executed generically are skipped
+			read(item{Op: e.Op, K: e.K, A: e.A, B: e.B, N: e.N, P: e.P, Seq: e.Seq, Stops: e.Stops})
 		}
 	}
 	tr.Close()
